@@ -118,11 +118,12 @@ Print Assumptions C07_parse_never_null.
 (* composed with C01's theorem for the classes Model/Results.v generates (sub-language op_ok): a conformant response
    is accepted, and then parse runs on exactly its occurrences, never on null.  The uniqueness guard is evaluated by
    the check on every driven response (it holds for all of them); proving it from op_ok (cov = true) is left open. *)
-Theorem C07_parse_once_op : forall C S frs fuel kind name sels root own pub' cls g cov fc j n,
+Theorem C07_parse_once_op : forall C S frs fuel kind name mixins sels root own pub' cls g cov mx fc j n,
   Results.root_type_name S kind = Results.Ok root ->
-  Results.op_parse fuel C S frs kind name [] sels = Results.Ok (own, pub', false) ->
-  Results.all_classes fuel C S frs (Results.DOp kind name [] sels) = Results.Ok cls ->
-  ResultsObjP.op_ok g cov C S frs root sels = true -> ResultsRunP.no_basemodel own = true ->
+  Results.op_parse fuel C S frs kind name mixins sels = Results.Ok (own, pub', false) ->
+  Results.all_classes fuel C S frs (Results.DOp kind name mixins sels) = Results.Ok cls ->
+  ResultsObjP.op_ok g cov C S frs mx mixins root sels = true -> ResultsRunP.mx_ok cls mx = true ->
+  ResultsRunP.no_basemodel own = true ->
   Exec.conf_op fc S frs root sels j = true -> n >= fuel + 2 ->
   ParseLog.uniq n cls (Ann.AClass (Results.pascal_s name)) j = true ->
   Pydantic.accepts n cls (Results.schema_enums S) (Ann.AClass (Results.pascal_s name)) j = true /\
@@ -130,9 +131,9 @@ Theorem C07_parse_once_op : forall C S frs fuel kind name sels root own pub' cls
               (ParseLog.pocc n cls (Ann.AClass (Results.pascal_s name)) j) /\
   Forall (fun e => snd e <> JNull) (ParseLog.plog n cls (Ann.AClass (Results.pascal_s name)) j).
 Proof.
-  intros C S frs fuel kind name sels root own pub' cls g cov fc j n Hr Hop Hall Hok Hnb Hconf Hn Hu.
-  assert (Ha := ResultsObjP.op_accepts C S frs fuel kind name sels root own pub' cls g cov fc j n
-                  Hr Hop Hall Hok Hnb Hconf Hn).
+  intros C S frs fuel kind name mixins sels root own pub' cls g cov mx fc j n Hr Hop Hall Hok Hmx Hnb Hconf Hn Hu.
+  assert (Ha := ResultsObjP.op_accepts C S frs fuel kind name mixins sels root own pub' cls g cov mx fc j n
+                  Hr Hop Hall Hok Hmx Hnb Hconf Hn).
   split; [exact Ha|]. split; [apply ParseLogP.parse_once_response; exact Hu|].
   eapply ParseLogP.parse_never_null; exact Ha.
 Qed.
